@@ -243,7 +243,7 @@ func runC18(w *World) *Result {
 	r := NewResult("C18")
 	r.Explanation = "Decides the structural clauses of command calls for both back ends: (args) every argument hole of an app call is an individually double-quoted word, unconditionally, and a program name from a string literal is quoted; (pipe) stages are joined with the pipe operator in list order and the driver hands the stages over in source order; (capture, Bash) under valueUsed the whole pipeline sits in one command substitution assigned to a fresh helper, the status helper reads $? in the immediately following emitted line, nothing is echoed, and the results are (stdout, \"\", status) in the order of the node's return types."
 	r.NotDecided = "what the called programs receive and print at run time; Batch capture through the _ach helper beyond the argument/pipe clauses."
-	r.Rule("R-C18-args", "argument holes individually and unconditionally double-quoted; literal program names quoted", 4)
+	r.Rule("R-C18-args", "argument holes individually and unconditionally double-quoted; literal program names quoted", 2)
 	r.Rule("R-C18-pipe", "stages joined by | in list order; driver appends stages in traversal order", 3)
 	r.Rule("R-C18-capture", "one $( ) assigned to a fresh helper; $? read in the next line; result order stdout, \"\", status", 3)
 	r.Rule("R-C18-driver", "every argument of every stage is evaluated once, in order, as a used value before the single AppCall", 1)
